@@ -330,6 +330,7 @@ func (r *Reconciler) getPodList(ds *datadoghqv1alpha1.ExtendedDaemonSet) (*corev
 	podList := &corev1.PodList{}
 	podSelector := labels.Set{datadoghqv1alpha1.ExtendedDaemonSetNameLabelKey: ds.Name}
 	podListOptions := []client.ListOption{
+		client.InNamespace(ds.Namespace),
 		client.MatchingLabelsSelector{
 			Selector: podSelector.AsSelectorPreValidated(),
 		},
@@ -406,7 +407,7 @@ func (r *Reconciler) getOldDaemonsetPodList(ds *datadoghqv1alpha1.ExtendedDaemon
 		// Error reading the object - requeue the request.
 		return nil, err
 	}
-	podListOptions := []client.ListOption{}
+	podListOptions := []client.ListOption{client.InNamespace(ds.Namespace)}
 	if oldDaemonset.Spec.Selector != nil {
 		selector, err2 := utils.ConvertLabelSelector(r.log, oldDaemonset.Spec.Selector)
 		if err2 != nil {
@@ -414,6 +415,7 @@ func (r *Reconciler) getOldDaemonsetPodList(ds *datadoghqv1alpha1.ExtendedDaemon
 		}
 
 		podListOptions = []client.ListOption{
+			client.InNamespace(ds.Namespace),
 			client.MatchingLabelsSelector{
 				Selector: selector,
 			},
